@@ -118,7 +118,7 @@ theorem triggerGet_hand (s : KS) (g : EvId) (i : Int) (is : List Int) (hsz : 0 <
     KState.setEv, KState.triggered, KState.ev, dropGetQ, getD0_set, hsz, hgs, getD_push, getD_setIfInBounds, zero_eq', TimerK.push_setIfInBounds_size]
 
 
-attribute [wirek] body wireOut wireLoop srcLoop wirePut loadInt loadTime bad
+attribute [wirek] body wireOut wireLost wireLoop srcLoop wirePut loadInt loadTime bad
   cRec cPkt storeId wireProc srcProc storeRec KState.res
   doCall_load doCall_store doCall_log doCall_timeout doCall_sput doCall_sget_miss doCall_sget_hit getD0_set
 
